@@ -154,6 +154,8 @@ class T4TSilicon(object):
         self.cid_support = cid_support
         self.chunk = chunk              # max INF per response block (None -> FSD-3)
         self.wtx_plan = wtx_plan        # callable(kind) -> wtxm or 0; kind in 'answer','chain','ack'
+        self.wtx_repeat = 1             # S(WTX) requests in a row before the block goes out (None: for ever)
+        self.wtx_left = 0
         self.max_block_seen = 0         # largest block (PCB+INF+CRC) received in protocol state
         self.blocks_seen = []
         self.cmd_log = []
@@ -214,6 +216,7 @@ class T4TSilicon(object):
                 self.pending = block
                 self.last = bytes([0xF2, m & 0x3F])
                 self.state = "wtx"
+                self.wtx_left = None if self.wtx_repeat is None else self.wtx_repeat - 1
                 return self.last
         self.last = block
         return block
@@ -253,6 +256,10 @@ class T4TSilicon(object):
         pcb = data[0]
         if self.state == "wtx":
             if pcb == 0xF2 and len(data) == 2 and data[1] & 0x3F == self.last[1] & 0x3F:
+                if self.wtx_left is None or self.wtx_left > 0:
+                    if self.wtx_left:
+                        self.wtx_left -= 1
+                    return self.last      # still busy: the next S(WTX) request
                 self.state = "protocol"
                 blk, self.pending = self.pending, None
                 self.last = blk
